@@ -1,7 +1,11 @@
 //go:build verif
 
-package dilithium
+package dilithium_test
 
+// External test package: only exported names of sign/internal/dilithium are used here (the
+// compiler enforces it). The unexported scalar helpers modQ, le2qModQ and montReduceLe2Q are swept
+// in files of their own (zz_verif_c04_{modq,le2qmodq,montreduce}_test.go).
+//
 // C04 (ML-DSA / Dilithium equal FIPS 204 / round 3.1): complete sweeps of the shared field,
 // rounding, packing and NTT helpers, each through the Poly-level entry point so that the
 // generic and the AVX2 routine (config default vs purego / noavx2) are both decided.
@@ -13,40 +17,25 @@ import (
 
 	"github.com/cloudflare/circl/internal/verifmc"
 	ref "github.com/cloudflare/circl/internal/verifref/mldsa"
+	. "github.com/cloudflare/circl/sign/internal/dilithium"
 	"github.com/cloudflare/circl/sign/internal/verifc04"
 )
 
 func TestVerifC04_refcheck(t *testing.T) { verifc04.RefCheck(t) }
-
-// c04Chunks runs f(lo) for every 256-aligned chunk start lo in [0, n) in parallel.
-func c04Chunks(n uint64, f func(lo uint64)) {
-	chunks := int((n + 255) / 256)
-	const per = 4096
-	groups := (chunks + per - 1) / per
-	verifmc.ParallelFor(groups, func(g int) {
-		for c := g * per; c < (g+1)*per && c < chunks; c++ {
-			f(uint64(c) * 256)
-		}
-	})
-}
 
 // TestVerifC04_field: the two modular reductions, Normalize, Power2Round and the norm test
 // over their whole domains.
 func TestVerifC04_field(t *testing.T) {
 	r := verifmc.Start(t, "C04", "field")
 	defer r.Finish()
-	r.Rule("whole-domain sweeps: ReduceLe2Q and Normalize (modQ) on all 2^32 inputs (thorough; quick: [0,2^26) + bands at 2^31, 2^32), le2qModQ on [0,2q), power2round on [0,q), Exceeds on [0,q) x the 8 distinct bounds the six parameter sets use, " +
-		"scalar and Poly-level (AVX2 when enabled) entry points; oracle = integer arithmetic with %; distinct = (function, 2^16-aligned block of the domain), exact point counts in counters")
+	r.Rule("whole-domain sweeps: ReduceLe2Q and Poly.Normalize on all 2^32 inputs (thorough; quick: [0,2^26) + bands at 2^31, 2^32), Poly.NormalizeAssumingLe2Q on [0,2q), Poly.Power2Round on [0,q), Exceeds on [0,q) x the 8 distinct bounds the six parameter sets use, " +
+		"exported scalar ReduceLe2Q and Poly-level (AVX2 when enabled) entry points (the unexported scalar helpers have units of their own); oracle = integer arithmetic with %; distinct = (function, 2^16-aligned block of the domain), exact point counts in counters")
 	viol := func(fn, class string, x uint64, what string) {
 		r.Violation("C04|common."+fn+"|"+class, fmt.Sprintf("%s/%d", fn, x), what, map[string]interface{}{"fn": fn, "x": x})
 	}
 	replayX := uint64(1 << 63)
-	if r.Replaying() {
-		var name string
-		var x uint64
-		if n, _ := fmt.Sscanf(replaceSlash(r.ReplayCase()), "%s %d", &name, &x); n == 2 {
-			replayX = x &^ 255
-		}
+	if lo, ok := verifc04.ReplayChunk(r); ok {
+		replayX = lo
 	}
 	want := func(lo uint64) bool { return replayX == 1<<63 || replayX == lo }
 
@@ -56,7 +45,7 @@ func TestVerifC04_field(t *testing.T) {
 		return lo < 1<<26 || (lo >= 1<<31-1<<20 && lo < 1<<31+1<<20) || lo >= 1<<32-1<<20
 	}
 	var reducePoints atomic.Int64
-	c04Chunks(1<<32, func(lo uint64) {
+	verifc04.Chunks64(1<<32, func(lo uint64) {
 		if !want(lo) || (!full && !inQuick(lo)) {
 			return
 		}
@@ -79,11 +68,8 @@ func TestVerifC04_field(t *testing.T) {
 			if y := ReduceLe2Q(x); y >= 2*Q || y%Q != x%Q {
 				viol("ReduceLe2Q", "wrong", uint64(x), fmt.Sprintf("ReduceLe2Q(%d) = %d", x, y))
 			}
-			if y := modQ(x); y != x%Q {
-				viol("modQ", "wrong", uint64(x), fmt.Sprintf("modQ(%d) = %d, want %d", x, y, x%Q))
-			}
 		}
-		r.Eval(2 + 512)
+		r.Eval(2 + 256)
 		if lo&0xffff == 0 {
 			r.Distinct("reduce", lo>>16)
 		}
@@ -95,7 +81,7 @@ func TestVerifC04_field(t *testing.T) {
 	}
 
 	// le2qModQ over its documented domain [0, 2q).
-	c04Chunks(2*Q, func(lo uint64) {
+	verifc04.Chunks64(2*Q, func(lo uint64) {
 		if !want(lo) {
 			return
 		}
@@ -112,19 +98,16 @@ func TestVerifC04_field(t *testing.T) {
 			if a[i] != b[i]%Q {
 				viol("Poly.NormalizeAssumingLe2Q", "wrong", uint64(b[i]), fmt.Sprintf("Poly.NormalizeAssumingLe2Q(%d) = %d, want %d", b[i], a[i], b[i]%Q))
 			}
-			if y := le2qModQ(b[i]); y != b[i]%Q {
-				viol("le2qModQ", "wrong", uint64(b[i]), fmt.Sprintf("le2qModQ(%d) = %d, want %d", b[i], y, b[i]%Q))
-			}
 		}
-		r.Eval(1 + 256)
+		r.Eval(1)
 		if lo&0xffff == 0 {
 			r.Distinct("le2q", lo>>16)
 		}
 	})
-	r.Count("points_le2qModQ", 2*Q)
+	r.Count("points_NormalizeAssumingLe2Q", 2*Q)
 
 	// Power2Round over [0, q).
-	c04Chunks(Q, func(lo uint64) {
+	verifc04.Chunks64(Q, func(lo uint64) {
 		if !want(lo) {
 			return
 		}
@@ -168,7 +151,7 @@ func TestVerifC04_field(t *testing.T) {
 		}
 		return x
 	}
-	c04Chunks(Q, func(lo uint64) {
+	verifc04.Chunks64(Q, func(lo uint64) {
 		if !want(lo) {
 			return
 		}
@@ -220,7 +203,7 @@ func TestVerifC04_field(t *testing.T) {
 
 	// Add, Sub, MulBy2toD (AVX2 variants exist): value alphabet x full sweep of the other operand.
 	alpha := []uint32{0, 1, 2, Q - 1, Q, Q + 1, 2*Q - 1}
-	c04Chunks(2*Q, func(lo uint64) {
+	verifc04.Chunks64(2*Q, func(lo uint64) {
 		if !want(lo) {
 			return
 		}
@@ -266,9 +249,9 @@ func TestVerifC04_field(t *testing.T) {
 		r.Distinct("mul2d", lo)
 	}
 
-	// MulHat / montReduceLe2Q on the documented domain a*b < 2^32 q: operand alphabet x full [0,2q) plus the 18q band.
+	// MulHat on the documented domain a*b < 2^32 q: operand alphabet x full [0,2q) plus the 18q band.
 	malpha := []uint32{0, 1, 2, 3, Q - 1, Q, Q + 1, 2*Q - 1, 2 * Q, 18*Q - 1, 18 * Q, 1<<23 - 1, 1 << 23, 1<<31 - 1, 1 << 31, 1<<32 - 1}
-	c04Chunks(2*Q, func(lo uint64) {
+	verifc04.Chunks64(2*Q, func(lo uint64) {
 		if !want(lo) {
 			return
 		}
@@ -290,9 +273,6 @@ func TestVerifC04_field(t *testing.T) {
 				if m[i] > 2*Q || (uint64(m[i])%Q)*((1<<32)%Q)%Q != prod%Q {
 					viol("Poly.MulHat", "wrong", uint64(b[i]), fmt.Sprintf("MulHat(%d,%d) = %d: not the Montgomery product below 2q", a[i], b[i], m[i]))
 				}
-				if y := montReduceLe2Q(prod); y > 2*Q || (uint64(y)%Q)*((1<<32)%Q)%Q != prod%Q {
-					viol("montReduceLe2Q", "wrong", prod, fmt.Sprintf("montReduceLe2Q(%d) = %d", prod, y))
-				}
 			}
 			r.Eval(1 + 256)
 		}
@@ -300,29 +280,8 @@ func TestVerifC04_field(t *testing.T) {
 			r.Distinct("mulhat", lo>>16)
 		}
 	})
-	// scalar montReduceLe2Q on 64-bit inputs hi*2^32 + lo: lo in a boundary alphabet, hi on a stride of [0,q).
-	for _, j := range []uint64{0, 1, Q - 1, Q, 2*Q - 1, 2 * Q, 1<<32 - 1, 1<<32 - 2} {
-		for hi := uint64(0); hi < Q; hi += 4099 {
-			x := hi<<32 | j
-			y := montReduceLe2Q(x)
-			if y > 2*Q || (uint64(y)%Q)*((1<<32)%Q)%Q != x%Q {
-				viol("montReduceLe2Q", "wrong", x, fmt.Sprintf("montReduceLe2Q(%d) = %d", x, y))
-			}
-			r.Eval(1)
-		}
-	}
 	r.Sample(map[string]interface{}{"fn": "Power2Round", "x": Q - 1, "note": "r1, r0 compared with Algorithm 35 for every x in [0,q)"})
 	r.Sample(map[string]interface{}{"fn": "Exceeds", "bounds": bounds})
-}
-
-func replaceSlash(s string) string {
-	b := []byte(s)
-	for i := range b {
-		if b[i] == '/' {
-			b[i] = ' '
-		}
-	}
-	return string(b)
 }
 
 // TestVerifC04_ntt: the NTT pipeline the scheme uses, InvNTT(MulHat(NTT(a), NTT(b))), against the
